@@ -314,3 +314,29 @@ def fresh_returning(mods, base=('malloc', 'calloc', 'realloc', 'reallocarray', '
                 fresh.add(n)
                 changed = True
     return fresh - set(base)
+
+
+def immutable_fields(mods, candidates=('type',), allowed_writers=(('type', 'cfg_addopt'),)):
+    """struct members that no function writes in an object that existed before (apart from the listed
+    writer that turns the former end marker of an option array into a new entry): a load of such a
+    member is not invalidated by calls, not even by opaque user callbacks (which by contract do not
+    edit the schema)"""
+    out = set()
+    for cand in candidates:
+        ok = True
+        for m in mods:
+            for fn in m.funcs.values():
+                for ins in fn.instrs():
+                    if ins.op != 'store':
+                        continue
+                    if store_key(fn, ins) != cand:
+                        continue
+                    rk = _root_kind(fn, ins.ops[1]) or ('other',)
+                    if rk[0] in ('fresh', 'local'):
+                        continue
+                    if (cand, fn.name) in allowed_writers:
+                        continue
+                    ok = False
+        if ok:
+            out.add(cand)
+    return out
